@@ -11,9 +11,9 @@ ID = "C09"
 READY = True
 LEVEL = "exploration"
 WORKERS = {"quick": 8, "thorough": 16}
-BUDGET = {"quick": 60, "thorough": 420}
+BUDGET = {"quick": 150, "thorough": 420}
 MIN_NONTRIVIAL = {"quick": 3000, "thorough": 60000}
-REQUIRED_HOOKS = ["program-reuse", "evaluate:I", "evaluate:C", "index-sweep", "key-sweep", "regex", "law"]
+REQUIRED_HOOKS = ["program-reuse", "size-probe", "evaluate:I", "evaluate:C", "index-sweep", "key-sweep", "regex", "law"]
 RULE = (
     "Well-typed programs over lists and maps of int/uint/bool/string (nested to depth 2) and strings from the type-directed generator restricted to "
     "indexing, in, size, concatenation, map construction/lookup/has, contains/startsWith/endsWith, map/filter/all/exists/exists_one, with injected failing "
@@ -344,6 +344,40 @@ REUSE_ENVS = [
 ]
 
 
+# sizes around the thresholds at which an implementation might switch algorithms (fast path for short inputs, chunking, hashing)
+SIZES = [17, 25, 33, 65, 129, 257, 1025]
+SIZE_PROBES = [
+    "size(l) == n", "l[n - 1]", "l[n]", "l[n - 2] + l[0]", "l.map(x, x + 1)", "l.filter(x, x % 2 == 0)", "l.exists_one(x, x == n - 1)", "ld.exists_one(x, x == 1)", "l.exists_one(x, x == 0 || x == n - 1)",
+    "l.all(x, x >= 0)", "l.all(x, x < n - 1)", "l.exists(x, x == n - 1)", "(n - 1) in l", "n in l", "0 in l", "l + l", "size(l + ld) == n + n", "(l + l)[n] == l[0]", "l.map(x, x * 2)[n - 1]",
+    "l.filter(x, x >= n - 3).map(x, x - n)", "ld.filter(x, x == 2).size()", "l.map(x, ld[x])", "size(s) == n", "s.endsWith('yz') || s.contains('abc')", "(s + s).startsWith(s)", "(s + 'q').endsWith('q')",
+    "s.contains(s)", "size(s + s) == n + n", "s.matches('^[a-z]+.$')", "size(m) == n", "m['k' + string(n - 1)] == n - 1", "('k' + string(n)) in m", "('k' + string(n - 1)) in m", "has(m.k0) && !has(m.nope)",
+    "m.all(k, m[k] >= 0)", "m.exists_one(k, m[k] == n - 1)", "m.map(k, m[k]).size() == n", "[l, ld].map(x, size(x))", "l.map(x, [x, x + 1]).filter(p, p[1] == n).size()",
+]
+
+
+def size_probes(acc, ctx):
+    """Long lists, maps and strings, literal-free (bound), through the same reference evaluator."""
+    c = core.celpy()
+    parser = c.CELParser(tree_class=c.TranspilerTree)
+    from .. import larkconv
+
+    nodes = [larkconv.with_simple_literals(larkconv.conv(parser.parse(src))) for src in SIZE_PROBES]
+    k = 0
+    for n in SIZES if ctx.thorough else SIZES[:6]:
+        l = tuple(("int", i) for i in range(n))
+        env = {
+            "l": ("list", l), "ld": ("list", tuple(("int", i % 3) for i in range(n))), "n": ("int", n),
+            "s": ("string", "".join(chr(0x61 + i % 26) for i in range(n - 1)) + "\U0001f431"),
+            "m": ("map", tuple((("string", "k%d" % i), ("int", i)) for i in range(n))),
+        }
+        for node in nodes:
+            k += 1
+            if ctx.mine(k):
+                acc.hook("size-probe")
+                check_program(acc, node, env, "size-probe")
+    acc.exhaustive.append("%d list/map/string programs x sizes %s" % (len(SIZE_PROBES), SIZES if ctx.thorough else SIZES[:6]))
+
+
 def fixed_reuse(acc, ctx):
     c = core.celpy()
     parser = c.CELParser(tree_class=c.TranspilerTree)
@@ -362,6 +396,7 @@ def run(ctx):
     rnd = ctx.rnd
     core.celpy()
     fixed_reuse(acc, ctx)
+    size_probes(acc, ctx)
     index_sweep(acc, ctx)
     key_sweep(acc, ctx)
     regex_checks(acc, ctx, ctx.scale(2400, 80000))
